@@ -97,13 +97,17 @@ def materialise(prog: dict, root: Path) -> None:
         p.write_text(src)
 
 
-def run_rattr(cwd: Path, args: list[str], *, hashseed="0", timeout=60) -> dict:
+def run_rattr(cwd: Path, args: list[str], *, hashseed="0", timeout=60, extra_env=None) -> dict:
     """One real run of rattr's main() through the recording driver."""
     trace = tempfile.NamedTemporaryFile(prefix="trace_", suffix=".json", dir=cwd, delete=False)
     trace.close()
     env = dict(os.environ)
     env.update({"PYTHONPATH": str(C.REPO), "RATTR_REPO": str(C.REPO), "PYTHONHASHSEED": str(hashseed),
                 "PYTHONDONTWRITEBYTECODE": "1", "HOME": env.get("HOME", "/root")})
+    for k in ("RATTR_VERIF_FAKE_VERSION", "RATTR_VERIF_EXTRA_PLUGIN"):
+        env.pop(k, None)
+    if extra_env:
+        env.update(extra_env)
     try:
         p = subprocess.run([C.PY, DRIVER, trace.name, "--", *args], cwd=cwd, env=env,
                            capture_output=True, text=True, timeout=timeout)
